@@ -449,7 +449,14 @@ func runSplit(c Case, tr *Tracer) {
 			bb.Content(text, byte(ref))
 			parts, actual, err = bb.Build(context.Background())
 		}
+		lp := map[string]string{"CMPP": "cmpp", "SMPP": "smpp"}[proto]
 		if err != nil || actual == nil {
+			// refused: judged as a refusal of the first candidate's coding (a text that fits 255 parts in that coding,
+			// or in UCS-2 when the candidate cannot carry it, must not be refused)
+			if cs := intsOf(c["cands"]); len(cs) > 0 && text != "" {
+				can, _ := singleCoding(proto, cs[0], text, byte(ref))
+				emitSplit(tr, fmt.Sprintf("%s.batch/refused", lp), lp, cs[0], ref, text, nil, cs[0], true, can)
+			}
 			return
 		}
 		coding := -1
@@ -459,7 +466,6 @@ func runSplit(c Case, tr *Tracer) {
 		case datacoding.SMPPDataCoding:
 			coding = int(a)
 		}
-		lp := map[string]string{"CMPP": "cmpp", "SMPP": "smpp"}[proto]
 		// judged as a split that was asked for the coding the batch encoder chose
 		emitSplit(tr, fmt.Sprintf("%s.batch/%d", lp, coding), lp, coding, ref, text, parts, coding, false, true)
 	case "parse":
